@@ -3,6 +3,8 @@
 // canonical observation line per operation.
 mod util;
 mod pending;
+mod oplog;
+mod node;
 
 fn main() {
     let args: Vec<String> = std::env::args().collect();
@@ -14,6 +16,8 @@ fn main() {
     let workdir = args.get(3).cloned().unwrap_or_else(|| "/verif/.cache/run/default".to_string());
     match args[1].as_str() {
         "pending" => pending::run(&args[2], &workdir),
+        "oplog" => oplog::run(&args[2], &workdir),
+        "node" => node::run(&args[2], &workdir),
         d => {
             eprintln!("unknown driver {}", d);
             std::process::exit(2);
